@@ -66,6 +66,8 @@ def regex_uses(lit, subj):
         ("lit.exec", "%s.exec(%s);" % (lit, s)),
         ("RegExp()", "RegExp(%s).test(%s);" % (ps, s)),
         ("new RegExp", "new RegExp(%s).exec(%s);" % (ps, s)),
+        ("RegExp-after-eval", "eval('1'); RegExp(%s).test(%s);" % (ps, s)),
+        ("RegExp-after-newFunction", "new Function('return 1')(); new RegExp(%s).exec(%s);" % (ps, s)),
         ("match-str", "%s.match(%s);" % (s, ps)),
         ("search-str", "%s.search(%s);" % (s, ps)),
         ("match-re", "%s.match(%s);" % (s, lit)),
